@@ -340,8 +340,11 @@ int main(void)
 	static char line[1 << 20];
 	drv_init();
 	signal(SIGPIPE, SIG_IGN);
-	while (fgets(line, sizeof(line), stdin)) {
+	/* a library call that does not return (spinning push loop, ...) costs a few seconds, not the batch timeout */
+	signal(SIGALRM, drv_sigfault);
+	while (alarm(0), fgets(line, sizeof(line), stdin)) {
 		if (line[0] == '#' || line[0] == '\n') { fputs(line, stdout); continue; }
+		alarm(4);
 		drv_split(line);
 		if (drv_nw < 1) { puts("bad-op"); continue; }
 		const char *area = drv_w[0], *op = drv_nw > 1 ? drv_w[1] : "";
